@@ -43,6 +43,9 @@ def run(ctx):
         combos += [(m, l) for m in ("force_dot_license", "fallback_dot_license", "skip_unrecognised") for l in ("single", "multi")]
     for mode, lines in combos:
         conds.append(xh.Cond(f"annotate two paths, option={mode}, line handling={lines}", "ANN.py", "_ann", {"npaths": 2, "mode": mode, "lines": lines, "carve": carve}, timeout=tmo, twin="_ann_reach"))
+    # a forced style that does not support the requested line handling although the files' own style does
+    for forced, lines in (("html", "single"), ("python", "multi"), ("c", "single")):
+        conds.append(xh.Cond(f"annotate two paths, --style {forced} with line handling={lines} (must be refused before anything is touched)", "ANN.py", "_ann", {"npaths": 2, "mode": "style", "forced_style": forced, "lines": lines, "carve": carve}, timeout=tmo, twin="_ann_reach"))
     ctx.functions_encoded = [
         "reuse.cli.annotate.annotate (command body: all_paths, verify_paths_comment_style, verify_paths_line_handling, per-path loop, touch of .license, exit status)",
         "reuse._annotate.add_header_to_file (style selection, fallback .license, read, skip_existing, try/except, write-back)",
